@@ -116,3 +116,20 @@ Proof.
   exact (round_trip_decoded_map lm0 f64 f32 fi Hfmt Hlead H32 events_real _ m c ls dist2 m2 Hl Ed W23 Ec Wrt
            (objects_classes_b_ok lm0 m Wobj) Ee Hd2).
 Qed.
+
+(* the node clause of [final_rel] is not vacuous: the nodes of the example's slider are in the
+   decoder's image and carry no file name, and there are repeat_count + 2 of them *)
+Definition nodes_facts (h : HitObject) : list Z :=
+  match h_kind h with
+  | KSlider s =>
+      [Z.of_nat (length (sl_node_samples s)); sl_repeat_count s + 2;
+       if forallb (fun l => samples_image l && match first_file l with None => true | Some _ => false end) (sl_node_samples s) then 1 else 0;
+       if samples_image (h_samples h) && match first_file (h_samples h) with None => true | Some _ => false end then 1 else 0]
+  | _ => []
+  end.
+Lemma all_kinds_nodes :
+  match decode_beatmap (dist_real lm0) (lines_of_text all_kinds_text) with
+  | Done m => map nodes_facts (hov_hit_objects (bmv_ho m)) = [[]; [2; 2; 1; 1]; []; []]
+  | _ => False
+  end.
+Proof. vm_compute. reflexivity. Qed.
